@@ -27,8 +27,8 @@ def job(a):
             if p.endswith(".py"):
                 _ast.parse(t)
         ctx = analyse(Program(src, root=f"<{tag}>"), prop, "quick")
-        if ctx.violations:
-            o = ctx.violations[0]
+        if ctx.new_violations:
+            o = ctx.new_violations[0]
             return (tag, prop, "violation", f"{o.rule} {o.construct}: {o.desc} {json.dumps(o.witness, default=str)[:300] if o.witness else ''}"[:700], round(time.time() - t0, 1))
         if ctx.undecideds:
             o = ctx.undecideds[0]
